@@ -409,16 +409,18 @@ func TestVerifC20(t *testing.T) {
 			}
 		}
 	}
-	for _, f := range pf {
+	for pfi, f := range pf {
 		q := "k:a"
 		if !f.None {
 			var ns []string
 			for _, n := range f.Fields {
 				ns = append(ns, quoteName(n))
 			}
-			q += " | fields "
+			// SeqQL keywords are case-insensitive: the spelling of the pipe rotates with the filter index
+			kw := [][2]string{{"fields", "except"}, {"FIELDS", "EXCEPT"}, {"Fields", "Except"}, {"fields", "EXCEPT"}}[pfi%4]
+			q += " | " + kw[0] + " "
 			if !f.Allow {
-				q += "except "
+				q += kw[1] + " "
 			}
 			q += strings.Join(ns, ", ")
 		}
@@ -446,7 +448,7 @@ func TestVerifC20(t *testing.T) {
 	r.Sample(c20Case{Doc: docs[len(docs)/2], Filter: filters[len(filters)/2], Via: "fetch"})
 	ev := r.Get("evaluations")
 	r.Finish(t, "model_checking",
-		fmt.Sprintf("%d stored JSON objects from the grammar names{a,b,a.b,é,\"\",a spelled \\u0061,é spelled \\u00e9,q\"\\k} x values{1,-0.5e3,\"s\",escaped string,\"é\",true,null,{},{\"x\":1},[1,{\"y\":2}],\"\"} with 0..3 fields (all 1- and 2-field name sequences, 3-field ones thinned in quick), with and without insignificant whitespace; %d field filters = every list of <=3 names over {a,b,a.b,zz} incl. repeats in allow and except mode, no filter, and lists with é / empty name / a name with quote and backslash; every (document, filter) through the streaming GrpcV1.Fetch of an in-process store; every filter again with requests of 1 and 2 IDs (6 documents each); every ordered pair of requests over 10 filters incl. lists of 9 and 12 names, sequentially (the answer must not depend on the request served before); every filter (quick: every 5th) again through search.Ingestor.Search with a fields pipe (ID sequence must equal the un-piped search). Oracle: output is a JSON object with exactly the expected key set, every kept value JSON-equal (numbers numerically), no filter => identical bytes", len(docs), len(filters)),
+		fmt.Sprintf("%d stored JSON objects from the grammar names{a,b,a.b,é,\"\",a spelled \\u0061,é spelled \\u00e9,q\"\\k} x values{1,-0.5e3,\"s\",escaped string,\"é\",true,null,{},{\"x\":1},[1,{\"y\":2}],\"\"} with 0..3 fields (all 1- and 2-field name sequences, 3-field ones thinned in quick), with and without insignificant whitespace; %d field filters = every list of <=3 names over {a,b,a.b,zz} incl. repeats in allow and except mode, no filter, and lists with é / empty name / a name with quote and backslash; every (document, filter) through the streaming GrpcV1.Fetch of an in-process store; every filter again with requests of 1 and 2 IDs (6 documents each); every ordered pair of requests over 10 filters incl. lists of 9 and 12 names, sequentially (the answer must not depend on the request served before); every filter (quick: every 5th) again through search.Ingestor.Search with a fields pipe (keyword spelled fields / FIELDS / Fields in rotation) (ID sequence must equal the un-piped search). Oracle: output is a JSON object with exactly the expected key set, every kept value JSON-equal (numbers numerically), no filter => identical bytes", len(docs), len(filters)),
 		map[string]any{
 			"states":                        len(docs) * len(filters),
 			"transitions":                   ev,
